@@ -227,6 +227,10 @@ def case_op(op, dim, dxs):
                 "++": np.ones(n, dtype=int), "--": -np.ones(n, dtype=int),
                 "mixA": np.where(idx < n // 2, -1, 3), "mixB": np.where(idx < n // 2, 3, -1),
                 "alt": np.where(idx % 2 == 0, 2, -1),
+                # exact ties: every face has u_i == -u_{i+1} != 0 (the upwind switch picks its 'else' branch)
+                "tie": np.where(idx % 2 == 0, 2, -2),
+                # a single tie face inside an otherwise one-signed flow
+                "one-tie": np.where(idx == n // 2, -1, np.where(idx == n // 2 + 1, 1, np.where(idx < n // 2, 1, 2))),
             }
             for pname, u1 in pats.items():
                 bshape = [1] * dim
@@ -295,6 +299,6 @@ def run(r) -> None:
     cases.sort(key=lambda c: (c["op"] != "eno3", c["dim"] != 3))
     r.run_cases("operators", "op", cases)
     r.bounds = {"monomials": "all x^a y^b z^c with a+b+c <= 2 (<= 3 for Laplacians, per-variable <= 3 for filters, ENO3: degree <= 3 along the axis)",
-                "grids": SHAPES, "spacings": dxs, "eno3_velocity_patterns": ["++", "--", "mixA", "mixB", "alt"], "arithmetic": "exact (Fractions)"}
+                "grids": SHAPES, "spacings": dxs, "eno3_velocity_patterns": ["++", "--", "mixA", "mixB", "alt", "tie", "one-tie"], "arithmetic": "exact (Fractions)"}
     r.extra["rule"] = "one state per (operator variant, monomial, interior cell) compared with == against the analytic derivative"
     r.assumptions = ["kernels executed by the interpreter in exact mode on the captured assignment collections (float literals rationalised to within 1 ulp)"]
